@@ -99,6 +99,9 @@ def typed_pat(ast, delim):
 def make_case(idx):
     R = rng('c13', idx)
     words = ['foo', 'bar', 'Foo', 'a', 'ab', 'aaa', 'x', 'é', 'été', 'λόγ', '中', 'a1', '_', 'b', 'xfoo', 'foofoo', 'foo_bar'] + (['a\\', '\\', 'b\\/', 'a/'] if idx % 5 == 0 else [])
+    near = idx % 7 == 3       # characters that are one bit (0x20) away from another one without being its other case
+    if near:
+        words = ['@', '`', '~x', '^x', '_a', '\x7fa', 'É', 'é', 'Я', 'я', 'ぢ', 'あ', 'a', 'A', 'x@', 'x`'] + words[:4]
     nl = R.randint(1, 8)
     lines = []
     for _ in range(nl):
@@ -117,6 +120,8 @@ def make_case(idx):
             x = R.random()
             if x < 0.4:
                 w = R.choice(['foo', 'a', 'ab', 'x', 'é', 'aa', 'o', 'bar', 'b'] + (['a\\', '\\', 'b\\', 'a/', '\\/'] if idx % 5 == 0 else []))
+                if near:
+                    w = R.choice(['@', '`', '~x', '_a', 'é', 'É', 'я', 'あ', 'ぢ', 'x@', 'a'])
                 parts = []
                 if R.random() < 0.2:
                     parts.append(('bol',))
